@@ -204,6 +204,43 @@ theorem byval_aliases_nothing {V} (nL : Nat) (args : List (Arg V)) (i : Nat) (v 
     simp [hl.1]
     exact h2
 
+/-- the parameters of a routine need one cell each -/
+theorem params_one_cell_each (ps ls : List (String × VType)) :
+    frameSize (routineFrame ps ls) = ps.length + frameSize ls := by
+  simp [routineFrame, frameSize_append, frameSize_params]
+
+/-- the code of the callee finds its k-th parameter in cell k of the frame, whatever the earlier parameters refer to -/
+theorem param_slot_is_position (ps ls : List (String × VType)) (k : Nat) (hk : k < ps.length)
+    (hnd : (ps.map (·.1)).Nodup) : varIdx (routineFrame ps ls) (ps[k]).1 = some k :=
+  varIdx_append_left _ _ _ _ (varIdx_param_pos ps k hk hnd)
+
+/-- ... and that cell holds the reference the caller passed for its k-th argument: a parameter of any type (a whole record
+    too) names exactly the caller's location -/
+theorem param_reads_its_argument {V} (ps ls : List (String × VType)) (args : List (Arg V)) (nL k s i : Nat)
+    (hk : k < ps.length) (hnd : (ps.map (·.1)).Nodup) (h : args[k]? = some (.ref s i)) :
+    ∃ c, varIdx (routineFrame ps ls) (ps[k]).1 = some c ∧ (bindParams nL args)[c]? = some (.ref s i) :=
+  ⟨k, param_slot_is_position ps ls k hk hnd, byref_aliases_exactly nL args k s i h⟩
+
+/-- a local variable lies behind the parameter cells -/
+theorem local_behind_params (ps ls : List (String × VType)) (v : String) (c : Nat)
+    (hp : ∀ p ∈ ps, p.1 ≠ v) (h : varIdx ls v = some c) : varIdx (routineFrame ps ls) v = some (c + ps.length) := by
+  unfold routineFrame
+  rw [varIdx_append_right _ _ _ (by
+    intro q hq
+    obtain ⟨p, hp', rfl⟩ := List.mem_map.mp hq
+    exact hp p hp'), h, frameSize_params]
+  rfl
+
+/-- before the repair a record parameter was given the room of the whole record: the parameter after it was looked up in a
+    cell that `frame` never filled with its argument (`frame` pops one cell per argument) -/
+theorem whole_record_sizing_was_wrong :
+    ∃ (ps ls : List (String × VType)) (k : Nat) (hk : k < ps.length),
+      varIdx (routineFrameOld ps ls) (ps[k]).1 ≠ some k ∧ varIdx (routineFrame ps ls) (ps[k]).1 = some k :=
+  ⟨[("q", .val (.record [.cell, .cell])), ("m", .val .cell)], [], 1, by decide, by decide, by decide⟩
+
+example : routineFrame [("a", .dyn), ("q", .val (.record [.cell, .record [.cell, .cell]])), ("m", .val .cell)] [("l", .val .cell)] =
+    [("a", .dyn), ("q", .dyn), ("m", .dyn), ("l", .val .cell)] := by rfl
+
 /-- every activation gets fresh locals: all declared local cells of a new frame are unset -/
 theorem fresh_locals {V} (nL : Nat) (args : List (Arg V)) (j : Nat)
     (h1 : args.length ≤ j) (h2 : j < args.length + nL) : (bindParams nL args)[j]? = some .unset := by
